@@ -124,6 +124,18 @@ def judge_real(n, links, viol, what=""):
             viol.append(V("ResNetwork.effective_resistance:law:scaling",
                           "%s all resistances x%d" % (what, SCALE), L3,
                           SCALE * L))
+        # units are arbitrary: nano-ohms and giga-ohms scale like any other
+        # factor (powers of two: exact in floating point)
+        for c in (2.0 ** -30, 2.0 ** -40, 2.0 ** 30):
+            Lc = np.array(_er_matrix(_mk(n, {k: c * float(r)
+                                             for k, r in links.items()}),
+                                     n))
+            ev += n * n
+            if not np.allclose(Lc, c * L, rtol=1e-9, atol=0):
+                viol.append(V("ResNetwork.effective_resistance:law:scaling:"
+                              "extreme-units", "%s all resistances x%g" % (
+                                  what, c), Lc, c * L))
+                break
     except Exception as ex:
         viol.append(V("ResNetwork.effective_resistance:raises:connected",
                       "%s scaled %r" % (what, ex), repr(ex), "a value"))
